@@ -220,7 +220,6 @@ SE2Base<_Derived>::log(OptJacobianRef J_t_m) const
   using std::sin;
 
   const Scalar theta     = angle();
-  const Scalar cos_theta = coeffs()[2];
   const Scalar sin_theta = coeffs()[3];
   const Scalar theta_sq  = theta * theta;
 
@@ -237,7 +236,7 @@ SE2Base<_Derived>::log(OptJacobianRef J_t_m) const
   {
     // Euler
     A = sin_theta / theta;
-    B = (Scalar(1) - cos_theta) / theta;
+    B = theta * internal::oneMinusCosByThetaSq(theta, theta_sq);
   }
 
   const Scalar den = Scalar(1) / (A*A + B*B);
